@@ -382,6 +382,312 @@ def check_routes(ctx, table):
 
 
 # --------------------------------------------------------------------------------------------------------------
+# Reassign sequences on ONE BayesianProblem (LinGauss part `reassign`)
+# --------------------------------------------------------------------------------------------------------------
+# TLC emits, per base configuration, the 16 states "which version (1 / 2) of prior mean, prior parameter, noise
+# parameter, data is currently assigned" with the closed forms of a FRESH problem with exactly these values (invariant
+# ReassignIsFresh).  The replayer walks behaviours of that state graph on ONE real BayesianProblem: build with version
+# 1, ReWarm = evaluate every observable (fills whatever the objects cache), ReAssign(f) = public setter of field f on
+# the objects the problem holds, and after EVERY action compares every observable with the expectation of the state
+# reached.  BayesianProblem copies its distributions when it conditions on the data (Distribution._condition ->
+# _make_copy, by design), so the objects that take effect are BP.prior, BP.likelihood.distribution, BP.likelihood.data.
+RE_FIELDS = ("mean", "prior", "noise", "data")
+RE_WHICH = {"mean": "mean", "prior": "prior_par", "noise": "noise_par", "data": "data", None: "none"}
+RTOL_COV = 1e-8
+
+
+def _re_base(case):
+    return (case["m"], case["na"], case["i1"], case["j"], case["mk"], case["mdl"], case["av"])
+
+
+def _re_selkey(sel):
+    return "%d%d%d%d" % (sel["mean"], sel["prior"], sel["noise"], sel["data"])
+
+
+def _re_group(cases):
+    """{base configuration: {state key 'mpnd': case}}; every base configuration must come with all 16 states."""
+    from cuqiverif.core import MachineryError
+    groups = {}
+    for c in cases:
+        groups.setdefault(_re_base(c), {})[_re_selkey(c["sel"])] = c
+    for b, g in groups.items():
+        if len(g) != 16:
+            raise MachineryError("LinGauss.reassign: base configuration %r emitted %d of 16 states" % (b, len(g)))
+    return [groups[b] for b in sorted(groups)]
+
+
+class _ReSig:
+    """Signature factory of one point of a behaviour: order (warm / cold / partial), field just assigned, state, phase."""
+
+    def __init__(self, st, order, which, phase):
+        L = _L()
+        self.tail = "noise=%s/prior=%s/order=%s/which=%s/state=%s/phase=%s/mean=%s/model=%s/m=%d/n=%d" % (
+            L.form_tag(st["noise"]), L.form_tag(st["prior"]), order, RE_WHICH[which], _re_selkey(st["sel"]), phase,
+            st["mk"], st["mdl"], st["m"], st["n"])
+
+    def __call__(self, what):
+        return "reassign/%s/%s" % (what, self.tail)
+
+
+def _re_assign(BP, field, st):
+    """ReAssign(field): the public setter, on the objects the problem holds, with the value of the target state."""
+    L = _L()
+    if field == "mean":
+        BP.prior.mean = L.mean_value(st)
+    elif field == "prior":
+        name, val = L.prior_assignment(st)
+        setattr(BP.prior, name, val)
+    elif field == "noise":
+        name, val = L.noise_assignment(st)
+        setattr(BP.likelihood.distribution, name, val)
+    elif field == "data":
+        BP.likelihood.data = L.inp(st["y"])
+    else:
+        raise ValueError(field)
+
+
+def _re_obs_cov(ctx, BP, st, sig, carry):
+    """compute_cov() of both Gaussians = the covariance of the value currently assigned (fills the cache)."""
+    L = _L()
+    for who, dist, Cq in (("prior", BP.prior, st["C0_q"]), ("noise", BP.likelihood.distribution, st["Ce_q"])):
+        if not hasattr(dist, "compute_cov"):
+            continue                                        # GMRF: no covariance interface
+        ctx.case(("reassign", sig("cov/" + who)), facet="reassign/cov")
+        try:
+            C = L.dense(dist.compute_cov())
+        except Exception:
+            _outcome(ctx, "reassign/compute_cov/error/%s" % who)
+            continue
+        if L.rel_err(C, L.qnp(Cq), scale=1e-3) > RTOL_COV:
+            ctx.mismatch(sig("cov/" + who), carry, "compute_cov() of the %s Gaussian is not the covariance of the parameter "
+                         "currently assigned" % who, expected=L.qnp(Cq), observed=C)
+
+
+def _re_obs_read(ctx, BP, st, sig, carry):
+    """What the routes read without computing: sqrtprec (S^T S = precision), and cov / prec when they are handed out."""
+    L = _L()
+    for who, dist, Cq, P in (("prior", BP.prior, st["C0_q"], st["P0"]), ("noise", BP.likelihood.distribution, st["Ce_q"], st["Pe"])):
+        P = L.inp(P)
+        dim = P.shape[0]
+        ctx.case(("reassign", sig("read/" + who)), facet="reassign/read")
+        try:
+            S = L.dense(dist.sqrtprec)
+            if S.ndim == 2 and S.shape[1] == dim and L.rel_err(S.T @ S, P, scale=1e-3) > RTOL_COV:
+                ctx.mismatch(sig("read/sqrtprec/" + who), carry, "sqrtprec of the %s distribution does not square to the precision of "
+                             "the parameter currently assigned" % who, expected=P, observed=S.T @ S)
+        except Exception:
+            _outcome(ctx, "reassign/read/sqrtprec/error/%s" % who)
+        if not hasattr(dist, "compute_cov"):
+            continue
+        for attr, exp in (("cov", L.qnp(Cq)), ("prec", P)):
+            try:
+                V = getattr(dist, attr)
+                if V is None or callable(V):
+                    continue
+                V = L.expand_diag(V, dim)
+            except Exception:
+                continue                                    # not available for this input form: nothing is handed out
+            if L.rel_err(V, exp, scale=1e-3) > RTOL_COV:
+                ctx.mismatch(sig("read/%s/%s" % (attr, who)), carry, "%s handed out by the %s Gaussian is not the one of the parameter "
+                             "currently assigned" % (attr, who), expected=exp, observed=V)
+
+
+def _re_obs_logd(ctx, BP, st, sig, carry):
+    """Log-density DIFFERENCES between two points (what a maximiser depends on; the normalisation is C04's business)."""
+    L = _L()
+    n = st["n"]
+    G, Pe, P0, y = L.inp(st["G"]), L.inp(st["Pe"]), L.inp(st["P0"]), L.inp(st["y"])
+    mu0 = np.array(st["prior"]["blocks"][0]["mu"], dtype=float)
+    xa, xb = np.zeros(n), np.array([1.0, -2.0, 3.0])[:n]
+    qp = lambda z: -0.5 * float((z - mu0) @ P0 @ (z - mu0))
+    ql = lambda z: -0.5 * float((y - G @ z) @ Pe @ (y - G @ z))
+    exp = {"prior": qp(xb) - qp(xa), "likelihood": ql(xb) - ql(xa)}
+    exp["posterior"] = exp["prior"] + exp["likelihood"]
+    for who, dens in (("prior", lambda: BP.prior), ("likelihood", lambda: BP.likelihood), ("posterior", lambda: BP.posterior)):
+        ctx.case(("reassign", sig("logd/" + who)), facet="reassign/logd")
+        try:
+            with L.quiet():
+                dd = dens()
+                got = float(np.ravel(dd.logd(xb))[0]) - float(np.ravel(dd.logd(xa))[0])
+        except Exception:
+            _outcome(ctx, "reassign/logd/error/%s" % who)
+            continue
+        if not np.isfinite(got) or abs(got - exp[who]) > 1e-9 * max(1.0, abs(exp[who])):
+            ctx.mismatch(sig("logd/" + who), carry, "log-density difference of the %s between two points is not the quadratic form of "
+                         "the values currently assigned" % who, expected=exp[who], observed=got)
+
+
+def _re_obs_map(ctx, BP, st, sig, carry):
+    L = _L()
+    n = st["n"]
+    Lam, rhs, mu = L.inp(st["Lam"]), L.inp(st["rhs"]), L.qnp(st["mu_q"])
+    ctx.case(("reassign", sig("map")), facet="reassign/map/%s" % st["route"])
+    try:
+        with L.quiet():
+            xm = BP.MAP()
+        info = getattr(xm, "info", None)
+        xm = np.asarray(xm, dtype=float).ravel()
+    except Exception:
+        _outcome(ctx, "reassign/MAP/error/%s+%s" % (st["noise"]["form"], st["prior"]["form"]))
+        return
+    direct = isinstance(info, dict) and info.get("solver") == "direct"
+    _outcome(ctx, "reassign/MAP/estimate/%s" % ("direct" if direct else "optimise"))
+    if xm.shape != (n,) or not np.all(np.isfinite(xm)):
+        ctx.mismatch(sig("map/shape"), carry, "MAP estimate is not a finite parameter vector of the posterior's dimension", expected=mu, observed=xm)
+    elif direct:
+        if L.rel_err(xm, mu) > RTOL_DIRECT:
+            ctx.mismatch(sig("map/direct"), carry, "closed-form MAP after this sequence of assignments is not the posterior mean of a "
+                         "freshly built problem with the values currently assigned", expected=mu, observed=xm)
+    elif _flagged(info):
+        _outcome(ctx, "reassign/MAP/flagged-unsuccessful")
+    else:
+        g = Lam @ xm - rhs
+        if np.max(np.abs(g)) > GTOL * max(1.0, np.max(np.abs(rhs))) or L.rel_err(xm, mu) > 1e-3:
+            ctx.mismatch(sig("map/optimise"), carry, "MAP estimate (optimisation route) after this sequence of assignments is not the "
+                         "maximiser of the posterior of the values currently assigned", expected=mu, observed=xm, detail={"gradient": g})
+
+
+def _re_obs_ml(ctx, BP, st, sig, carry):
+    L = _L()
+    n = st["n"]
+    G, Pe, y = L.inp(st["G"]), L.inp(st["Pe"]), L.inp(st["y"])
+    ctx.case(("reassign", sig("ml")), facet="reassign/ml")
+    try:
+        with L.quiet():
+            xl = BP.ML()
+        info = getattr(xl, "info", None)
+        xl = np.asarray(xl, dtype=float).ravel()
+    except Exception:
+        _outcome(ctx, "reassign/ML/error")
+        return
+    _outcome(ctx, "reassign/ML/estimate")
+    if xl.shape != (n,) or not np.all(np.isfinite(xl)):
+        ctx.mismatch(sig("ml/shape"), carry, "ML estimate is not a finite parameter vector", expected=L.qnp(st["xml_q"]), observed=xl)
+        return
+    if _flagged(info):
+        _outcome(ctx, "reassign/ML/flagged-unsuccessful")
+        return
+    gl = G.T @ (Pe @ (y - G @ xl))
+    scale = max(1.0, np.max(np.abs(G.T @ (Pe @ y))))
+    bad = np.max(np.abs(gl)) > GTOL * scale
+    if st["fullrank"]:
+        xml = L.qnp(st["xml_q"])
+        tolx = GTOL * scale * np.max(np.abs(np.linalg.inv(L.inp(st["GtPG"])))) * n + 1e-7
+        bad = bad or np.max(np.abs(xl - xml)) > tolx
+    if bad:
+        ctx.mismatch(sig("ml/optimise"), carry, "ML estimate after this sequence of assignments is not a maximiser of the likelihood of "
+                     "the values currently assigned", expected=L.qnp(st["xml_q"]) if st["fullrank"] else "any solution of the normal equations",
+                     observed=xl, detail={"gradient": gl})
+
+
+def _re_obs_sample(ctx, BP, st, sig, carry):
+    L = _L()
+    if st["sroute"] != "direct":
+        return
+    mu, cov = L.qnp(st["mu_q"]), L.qnp(st["LamInv_q"])
+    ctx.case(("reassign", sig("sample")), facet="reassign/sample")
+
+    def draw(items):
+        with L.scripted({"normal": list(items)}), L.quiet():
+            s = BP.sample_posterior(1)
+        return np.asarray(s.samples, dtype=float)[:, -1]
+    try:
+        off, T, N = L.affine_readoff(draw)
+    except L.ScriptError:
+        _outcome(ctx, "reassign/sample/other-route")
+        return
+    except Exception:
+        _outcome(ctx, "reassign/sample/error/%s+%s" % (st["noise"]["form"], st["prior"]["form"]))
+        return
+    _outcome(ctx, "reassign/sample/draws")
+    if L.rel_err(off, mu) > RTOL_DIRECT:
+        ctx.mismatch(sig("sample/offset"), carry, "direct Gaussian sampling after this sequence of assignments: draw for perturbation 0 is "
+                     "not the posterior mean of the values currently assigned", expected=mu, observed=off)
+    if L.rel_err(T @ T.T, cov, scale=1e-3) > RTOL_DIRECT:
+        ctx.mismatch(sig("sample/cov"), carry, "direct Gaussian sampling after this sequence of assignments: L L^T is not Lambda^-1 of the "
+                     "values currently assigned", expected=cov, observed=T @ T.T)
+
+
+_RE_OBS = {"cov": _re_obs_cov, "read": _re_obs_read, "logd": _re_obs_logd, "map": _re_obs_map, "ml": _re_obs_ml, "sample": _re_obs_sample}
+
+
+def _rot(seq, r):
+    seq = list(seq)
+    r %= len(seq)
+    return seq[r:] + seq[:r]
+
+
+def _re_eval(ctx, BP, st, order, which, phase, obs, carry):
+    sig = _ReSig(st, order, which, phase)
+    for o in obs:
+        _RE_OBS[o](ctx, BP, st, sig, carry)
+
+
+def check_reassign_chain(ctx, states, order, perm, rot):
+    """One behaviour of LinGauss part `reassign` on ONE BayesianProblem.
+      order = 'warm'   : build(1111) . ReWarm . [ReAssign(f) . compare . ReWarm . compare  for f in perm]
+      order = 'cold'   : build(1111) . ReAssign(f) for f in perm (nothing evaluated in between) . compare . ReWarm . compare
+    `perm` may be a single field (partial reassignment: the expectation is the spec's mixed configuration).  `rot`
+    rotates the order in which MAP / sample_posterior / ML (and compute_cov) are called on the one object."""
+    L = _L()
+    st = states["1111"]
+    ctx.observations["reassign_behaviours"] = ctx.observations.get("reassign_behaviours", 0) + 1
+    carry = {"kind": "reassign", "order": order, "perm": list(perm), "rot": rot, "states": states}
+    try:
+        with L.quiet():
+            BP = build_problem(st)
+    except L.MachineryError:
+        raise
+    except Exception:
+        _outcome(ctx, "reassign/build/error")
+        return
+    calls = _rot(["map", "sample", "ml"], rot)
+    # after an assignment: everything BEFORE compute_cov() is called again (a stale cache must show), compute_cov() last
+    asis = ["read", "logd"] + calls + ["cov"]
+    rewarm = ["read"] + [c for c in calls if c != "ml"]
+    if order == "warm":
+        first = (calls[:2] if rot % 2 else []) + ["cov", "read", "logd"] + calls      # odd rot: MAP / sampling also BEFORE compute_cov()
+        _re_eval(ctx, BP, st, order, None, "initial", first, carry)
+    sel = dict(st["sel"])
+    last = None
+    for i, f in enumerate(perm):
+        sel[f] = 2
+        st = states[_re_selkey(sel)]
+        try:
+            with L.quiet():
+                _re_assign(BP, f, st)
+        except Exception as e:
+            # a refused assignment is an accepted outcome; the state of the object is then not defined by the spec: stop here
+            _outcome(ctx, "reassign/assign/refused/%s/%s" % (RE_WHICH[f], type(e).__name__))
+            return
+        last = f
+        if order == "warm":
+            _re_eval(ctx, BP, st, order, f, "asis", asis, carry)
+            _re_eval(ctx, BP, st, order, f, "rewarm", rewarm, carry)
+    if order != "warm":
+        _re_eval(ctx, BP, st, order, last, "asis", asis, carry)
+        _re_eval(ctx, BP, st, order, last, "rewarm", rewarm, carry)
+
+
+def check_reassign(ctx, groups):
+    """Behaviours replayed per base configuration (index i, seed s):
+       warm chain over all four fields, first field RE_FIELDS[(i + s) % 4] (its first step = partial reassignment after warming);
+       cold chain: all four fields assigned before anything is evaluated (reverse order: assign, evaluate later);
+       cold partial: only ONE field assigned before anything is evaluated (quick: one field per configuration, thorough: each)."""
+    for i, states in enumerate(groups):
+        r = i + ctx.seed
+        perm = _rot(RE_FIELDS, r)
+        check_reassign_chain(ctx, states, "warm", perm, r)
+        check_reassign_chain(ctx, states, "cold", _rot(RE_FIELDS[::-1], r), r + 1)
+        partial = RE_FIELDS if ctx.tier == "thorough" else [RE_FIELDS[(r + 1) % 4]]
+        for f in partial:
+            check_reassign_chain(ctx, states, "partial", [f], r + 2)
+        if ctx.tier == "thorough":
+            for q in (1, 2, 3):                          # warm chains starting with each of the other fields
+                check_reassign_chain(ctx, states, "warm", _rot(RE_FIELDS, r + q), r + q)
+
+
+# --------------------------------------------------------------------------------------------------------------
 def _deviations(ctx, names):
     from cuqiverif.core import MachineryError
     from cuqiverif import tlc
@@ -408,9 +714,15 @@ def run(ctx):
     ctx.model_must_hold(res, "LinGauss.route")
     route_cases = res.cases
     tlc.cleanup(res)
-    if not map_cases or not poly_cases or not route_cases:
-        raise MachineryError("no cases emitted by LinGauss (map %d, poly %d, route %d)" % (len(map_cases), len(poly_cases), len(route_cases)))
-    devs = [("VectorCovBroadcast", "MapDirectIsPosteriorMean"), ("MatrixIgnoresGeometry", "MapDirectIsPosteriorMean")]
+    res = ctx.tlc("LinGauss", cfg="LinGauss.reassign.%s.cfg" % ctx.tier, workers=16, timeout=1500)
+    ctx.model_must_hold(res, "LinGauss.reassign")
+    re_groups = _re_group(res.cases)
+    tlc.cleanup(res)
+    if not map_cases or not poly_cases or not route_cases or not re_groups:
+        raise MachineryError("no cases emitted by LinGauss (map %d, poly %d, route %d, reassign %d)" % (
+            len(map_cases), len(poly_cases), len(route_cases), len(re_groups)))
+    devs = [("VectorCovBroadcast", "MapDirectIsPosteriorMean"), ("MatrixIgnoresGeometry", "MapDirectIsPosteriorMean"),
+            ("StaleCovAfterReassign", "ReassignIsFresh")]
     if ctx.tier == "thorough":
         devs += [("MapUsesPrecForCov", "MapDirectIsPosteriorMean")]
     _deviations(ctx, devs)
@@ -425,9 +737,12 @@ def run(ctx):
     for c in pcs:
         check_poly_case(ctx, c)
     check_routes(ctx, route_cases[0]["table"])
+    check_reassign(ctx, re_groups)
     oc = ctx.observations.get("outcomes", {})
     if not any(k.startswith("MAP/estimate/direct") for k in oc) or not oc.get("sample/draws"):
         raise MachineryError("vacuous run: no configuration reached the closed-form MAP / direct sampling route (%r)" % oc)
+    if not oc.get("reassign/MAP/estimate/direct") or not oc.get("reassign/sample/draws") or not oc.get("reassign/ML/estimate"):
+        raise MachineryError("vacuous run: no reassign behaviour reached the closed-form MAP / direct sampling / ML (%r)" % oc)
     direct = [c for c in map_cases if c["covforms"]]
     for c in (direct[0], [k for k in direct if k["geo"] == "step"][0] if any(k["geo"] == "step" for k in direct) else map_cases[-1]):
         ctx.sample({"case": {k: c[k] for k in ("kind", "n", "m", "geo", "mdl", "A", "E", "G", "y", "noise", "prior", "route", "Lam", "rhs", "mu_q", "LamInv_q", "xml_q")}})
@@ -435,7 +750,7 @@ def run(ctx):
     ctx.rule = ("one case per configuration emitted by TLC from LinGauss.tla (parts map, poly, route) with exact mu_post, Lambda^-1, x_ML; "
                 "non-trivial = distinct (configuration, call) among MAP / ML / direct sampling / polynomial MAP from two starts / route realisation")
     ctx.exhaustive = True
-    ctx.traces = len(map_cases) + len(pcs) + 1
+    ctx.traces = len(map_cases) + len(pcs) + 1 + ctx.observations.get("reassign_behaviours", 0)
     ctx.assumptions += ["scipy BFGS / L-BFGS-B defaults (gtol 1e-5) define the tolerance of the optimisation route (gradient <= 1e-4 x scale)",
                         "sqrtcov convention cov = S S^T (code and tests/test_distribution.py; the docstring says S^T S)",
                         "an exception of MAP/ML/sample_posterior is an accepted outcome (property: 'the call fails instead of returning another point')",
@@ -451,6 +766,8 @@ def replay(ctx, case):
         return check_map_case(ctx, case)
     if kind == "poly":
         return check_poly_case(ctx, case)
+    if kind == "reassign":
+        return check_reassign_chain(ctx, case["states"], case["order"], case["perm"], case["rot"])
     if kind == "route":
         from cuqiverif import tlc
         res = ctx.tlc("LinGauss", cfg="LinGauss.route.cfg", workers=1, timeout=600)
